@@ -97,10 +97,11 @@ instance (r : FloatRepr) (bits : Nat) : Decidable (ReprFaithful r bits) := by
 /-! ## one constant: text and recorded type -/
 
 /-- The emitted text is a C++ literal (or `-literal`) of the same value and kind as the constant,
-and the type recorded for it can hold the value. -/
+and the type recorded for it can hold the value. A string literal has to denote the string under
+both lexing dialects: C++17/GNU, and ISO C++ before 17 where trigraphs are replaced first. -/
 def ConstOk (c : PyConst) (text : Str) (ty : CTy) : Prop :=
   match c with
-  | .str s => cppStringL text = some s ∧ ty = .string
+  | .str s => cppStringL text = some s ∧ cppStringTriL text = some s ∧ ty = .string
   | .int n =>
     match cppIntL text with
     | some (v, t) => v = n ∧ fitsTy t n = true ∧ fitsTy ty n = true
@@ -178,9 +179,9 @@ instance (tbl : List (Char × Str)) : Decidable (TableOk tbl) := by unfold Table
 def constAt (c : PyConst) (text : Str) : Option Str :=
   match c with
   | .str s =>
-    match cppStringLit text with
-    | some (v, rest) => if v = s then some rest else none
-    | none => none
+    match cppStringLit text, cppStringLit (detri text) with
+    | some (v, rest), some (vt, _) => if v = s ∧ vt = s then some rest else none   -- both lexing dialects
+    | _, _ => none
   | _ =>
     let p := numToken text
     if decide (ConstOk c p.1 (match c with | .int _ => .int | .float _ _ => .double | _ => .bool)) then some p.2
@@ -244,6 +245,10 @@ def nameSlot (segs : List Seg) : Option (Nat × NameKind × Bool) :=
 /-- the string literal found at the name's place in an emitted line -/
 def nameAt (off : Nat) (line : Str) : Option Str :=
   (cppStringLit (line.drop off)).map (·.1)
+
+/-- the same for a compiler that replaces trigraphs first (ISO C++ before C++17) -/
+def nameAtTri (off : Nat) (line : Str) : Option Str :=
+  (cppStringLit (detri (line.drop off))).map (·.1)
 
 /-- the literal at the name's place of this line (if the line has one) denotes the name -/
 def slotCarries (tbl : List (Char × Str)) (tree col var : Str) (segs : List Seg) : Bool :=
